@@ -121,6 +121,10 @@ def _judge(H, net, rules):
     inc_cols = Counter((H.edges[e].rule, tuple(int(x) for x in M[:, j])) for j, e in enumerate(eo))
     if so != used or inc_cols != want_cols:
         fails.append(Fail("matrix_vs_incidence", f"incidence species={so} cols={sorted(inc_cols.elements())}", f"{sorted(want_cols.elements())}"))
+    so2, eo2, mp = H.incidence_matrix(sparse=True)
+    sp_cols = Counter((H.edges[e].rule, tuple(int(mp.get((sname, e), 0)) for sname in so2)) for e in eo2)
+    if so2 != used or sp_cols != want_cols:
+        fails.append(Fail("matrix_vs_sparse_incidence", f"sparse incidence species={so2} cols={sorted(sp_cols.elements())}", f"{sorted(want_cols.elements())}"))
     Sx = [[int(round(x)) for x in row] for row in Sm.tolist()]  # implementation's column order, exact ints
     # --- rank
     r_impl = stoich.stoichiometric_rank(H)
